@@ -137,7 +137,7 @@ func (vc *VC) instr(in ssa.Instruction, h *Heap) {
 		o := vc.alloc(h, vc.curR, dyn)
 		vc.setVal(x, []string{"(mkslice " + o + " 0 0 " + vc.val1(x.Len) + " " + vc.val1(x.Cap) + ")"})
 	case *ssa.MakeMap:
-		o := vc.alloc(h, vc.curR, 0)
+		o := vc.alloc(h, vc.curR, vc.mapTypeID(x.Type()))
 		vc.vals[x] = []string{o}
 	case *ssa.MakeChan:
 		o := vc.alloc(h, vc.curR, 0)
@@ -233,7 +233,7 @@ func (vc *VC) loopContaining(b *ssa.BasicBlock) *loopInfo {
 }
 
 func (vc *VC) assumeRangesLazy(terms []string, t types.Type, h Heap) {
-	vc.assumeRanges("true", terms, t, h)
+	vc.assumeRanges(vc.curR, terms, t, h)
 }
 
 // ---------------------------------------------------------------- safety obligations (opt-in)
@@ -284,7 +284,7 @@ func (vc *VC) unop(x *ssa.UnOp, h *Heap) {
 		}
 		terms := vc.load(*h, a, x.Type())
 		vc.setVal(x, terms)
-		vc.assumeLoadRanges(vc.vals[x], x.Type(), *h)
+		vc.assumeLoadRanges(vc.vals[x], x.Type(), *h, a.Obj)
 	case token.SUB:
 		v := vc.val1(x.X)
 		if isFloat(x.Type()) {
@@ -567,7 +567,7 @@ func (vc *VC) typeAssert(x *ssa.TypeAssert, h *Heap) {
 		vc.curR = vc.define("R_ta", "Bool", and(vc.curR, okT))
 		vc.setVal(x, vals)
 	}
-	vc.assumeRanges("true", vc.vals[x][:len(vals)], at, *h)
+	vc.assumeRanges(vc.curR, vc.vals[x][:len(vals)], at, *h)
 }
 
 func (vc *VC) sliceOp(x *ssa.Slice, h *Heap) {
